@@ -60,16 +60,34 @@ pub fn project_info(text: &str) -> Value {
     let mut scores = vec![];
     let mut pvs: Vec<Vec<String>> = vec![];
     let mut other = 0;
+    // any standard UCI info line: one field per line (as the engine prints them) or several fields on one line
     for line in text.lines() {
-        if let Some(r) = line.strip_prefix("info depth ") {
-            depths.push(r.trim().parse::<i64>().unwrap_or(-1));
-        } else if let Some(r) = line.strip_prefix("info score cp ") {
-            scores.push(r.trim().parse::<i64>().unwrap_or(-99999));
-        } else if let Some(r) = line.strip_prefix("info pv") {
-            pvs.push(r.split_ascii_whitespace().map(|s| s.to_string()).collect());
-        } else if line.starts_with("info nodes ") {
-        } else if !line.trim().is_empty() {
-            other += 1;
+        let toks: Vec<&str> = line.split_ascii_whitespace().collect();
+        if toks.first() != Some(&"info") {
+            if !line.trim().is_empty() {
+                other += 1;
+            }
+            continue;
+        }
+        let mut i = 1;
+        while i < toks.len() {
+            match toks[i] {
+                "pv" => {
+                    pvs.push(toks[i + 1..].iter().map(|s| s.to_string()).collect());
+                    break;
+                }
+                "string" => break,
+                "depth" => {
+                    depths.push(toks.get(i + 1).and_then(|t| t.parse::<i64>().ok()).unwrap_or(-1));
+                    i += 2;
+                }
+                "score" if i + 2 < toks.len() && (toks[i + 1] == "cp" || toks[i + 1] == "mate") => {
+                    let v = toks[i + 2].parse::<i64>().unwrap_or(-99999);
+                    scores.push(if toks[i + 1] == "cp" || v == -99999 { v } else { (32000 - v.abs()) * v.signum() });
+                    i += 3;
+                }
+                _ => i += 1,
+            }
         }
     }
     json!({"depths": depths, "scores": scores, "pvs": pvs, "other": other})
